@@ -8,13 +8,13 @@ LEVEL = "exploration"
 RULE = (
     "pairs (proton run, target run) over seeded configuration cells (all schemes incl. FFN0/FONLL-FFN0 at PTO=PTO_evol>=1, "
     "all processes, kinds, heavynesses, SV keys): for every order key the target operator must equal the proton operator with "
-    "rows u,d (and ubar,dbar) mixed by (Z,A) and all other rows unchanged (rtol 1e-12); named targets must be bit-identical to "
+    "rows u,d (and ubar,dbar) mixed by (Z,A) and all other rows unchanged (rtol 1e-10); named targets must be bit-identical to "
     "the explicit {Z,A} of an independent copy of the documented table. Targets: random real 0<=Z<=A, Z=0, Z=A, the seven names. "
     "Distinct = (kind, heavyness, process, scheme, PTO, target class); non-trivial = the u and d rows of the proton operator differ "
     "(so the rotation is observable) for at least one order."
 )
 ASSUMPTIONS = ["documented (Z,A): proton(1,1) neutron(0,1) isoscalar(1,2) iron(23.403,49.618) lead(82,208) neon(10,20) marble(10,20)"]
-RTOL = 1e-12
+RTOL = 1e-10  # re-association noise is relative to the sum of |kernel terms|, which can exceed the result by 1e2 (thorough: margin 0.7 at 1e-12)
 TABLE = {
     "proton": (1.0, 1.0), "neutron": (0.0, 1.0), "isoscalar": (1.0, 2.0), "iron": (23.403, 49.618),
     "lead": (82.0, 208.0), "neon": (10.0, 20.0), "marble": (10.0, 20.0),
